@@ -55,18 +55,57 @@ func randomHistory(r *core.Rand, n int) []string {
 	}
 	tot := p.req + p.res + p.export + p.xreset + p.reset
 	ops := make([]string, 0, n)
+	// a rough simulation of the log steers IDs: mostly fresh requests and responses for pending
+	// entries, with a steady share of duplicates, repeated responses and orphans
+	done := map[string]bool{} // live id -> completed
+	pickWhere := func(f func(id string) bool) (string, bool) {
+		var c []string
+		for _, id := range ids {
+			if f(id) {
+				c = append(c, id)
+			}
+		}
+		if len(c) == 0 {
+			return "", false
+		}
+		return c[r.Intn(len(c))], true
+	}
 	for i := 0; i < n; i++ {
 		x := r.Intn(tot)
 		switch {
 		case x < p.req:
-			ops = append(ops, "req "+ids[r.Intn(len(ids))])
+			id := ids[r.Intn(len(ids))]
+			if !r.Chance(1, 5) {
+				if f, ok := pickWhere(func(id string) bool { _, live := done[id]; return !live }); ok {
+					id = f
+				}
+			}
+			if _, live := done[id]; !live {
+				done[id] = false
+			}
+			ops = append(ops, "req "+id)
 		case x < p.req+p.res:
-			ops = append(ops, "res "+ids[r.Intn(len(ids))])
+			id := ids[r.Intn(len(ids))]
+			if !r.Chance(1, 4) {
+				if f, ok := pickWhere(func(id string) bool { d, live := done[id]; return live && !d }); ok {
+					id = f
+				}
+			}
+			if _, live := done[id]; live {
+				done[id] = true
+			}
+			ops = append(ops, "res "+id)
 		case x < p.req+p.res+p.export:
 			ops = append(ops, "export")
 		case x < p.req+p.res+p.export+p.xreset:
+			for id, d := range done {
+				if d {
+					delete(done, id)
+				}
+			}
 			ops = append(ops, "xreset")
 		default:
+			done = map[string]bool{}
 			ops = append(ops, "reset")
 		}
 	}
